@@ -84,6 +84,11 @@ impl Check for C04 {
                     if c.proto.iter().any(|r| r.name == "colorRed") && s.chance(1, 2) {
                         c.meta.color_limits = Some([(); 6].map(|_| Some(gen::limit_val(s))));
                     }
+                    // rarely: a very long list (tens of thousands of XML nodes)
+                    if s.chance(1, 400) {
+                        let n = 20_000 + s.below(15_000) as usize;
+                        c.meta.original_guids = Some((0..n).map(|i| format!("g{i}")).collect());
+                    }
                     // explicit clearing through the API: set_*_limits(None)
                     if s.chance(1, 5) {
                         c.clear_limits = 1 + s.below(3) as u8;
@@ -104,6 +109,9 @@ impl Check for C04 {
         let mut v = Verdict::new();
         let p = &case.program;
         metadata_labels(p, &mut v);
+        if p.ops.iter().any(|o| matches!(o, Op::Cloud(c) if c.meta.original_guids.as_ref().map(|g| g.len() > 10_000).unwrap_or(false))) {
+            v.nt("tens_of_thousands_of_xml_nodes");
+        }
         let dev = MemDev::new();
         let mut tr = Trace::default();
         let h = dev.handle();
